@@ -35,3 +35,71 @@ pub fn order_atoms(mut atoms: Vec<&Atom>) -> Vec<&Atom> {
     }
     atoms
 }
+
+// ---------------------------------------------------------------------------
+// Hash map with a fixed-key hasher for the decoder's atom cache (std's
+// RandomState would make any iteration over it differ from run to run).
+// ---------------------------------------------------------------------------
+
+use std::collections::HashMap;
+use std::hash::{BuildHasher, Hasher};
+use std::ops::{Deref, DerefMut};
+
+#[derive(Clone, Copy, Debug, Default)]
+pub struct FixedState;
+
+pub struct FixedHasher(u64);
+
+impl Hasher for FixedHasher {
+    fn finish(&self) -> u64 {
+        let mut z = self.0;
+        z = (z ^ (z >> 30)).wrapping_mul(0xbf58_476d_1ce4_e5b9);
+        z = (z ^ (z >> 27)).wrapping_mul(0x94d0_49bb_1331_11eb);
+        z ^ (z >> 31)
+    }
+
+    fn write(&mut self, bytes: &[u8]) {
+        for b in bytes {
+            self.0 = (self.0 ^ u64::from(*b)).wrapping_mul(0x0000_0100_0000_01b3);
+        }
+    }
+}
+
+impl BuildHasher for FixedState {
+    type Hasher = FixedHasher;
+    fn build_hasher(&self) -> FixedHasher {
+        FixedHasher(0xcbf2_9ce4_8422_2325)
+    }
+}
+
+#[derive(Debug, Clone)]
+pub struct DetHashMap<K, V>(HashMap<K, V, FixedState>);
+
+impl<K, V> DetHashMap<K, V> {
+    pub fn new() -> Self {
+        DetHashMap(HashMap::with_hasher(FixedState))
+    }
+
+    pub fn with_capacity(capacity: usize) -> Self {
+        DetHashMap(HashMap::with_capacity_and_hasher(capacity, FixedState))
+    }
+}
+
+impl<K, V> Default for DetHashMap<K, V> {
+    fn default() -> Self {
+        Self::new()
+    }
+}
+
+impl<K, V> Deref for DetHashMap<K, V> {
+    type Target = HashMap<K, V, FixedState>;
+    fn deref(&self) -> &Self::Target {
+        &self.0
+    }
+}
+
+impl<K, V> DerefMut for DetHashMap<K, V> {
+    fn deref_mut(&mut self) -> &mut Self::Target {
+        &mut self.0
+    }
+}
